@@ -488,7 +488,7 @@ Section HC.
         replace (length w) with (length (l2 ++ l1)) by (unfold w; symmetry; apply twalk_length).
         unfold fd. rewrite !map_length, E, !app_length, !map_app, Nat.add_comm. f_equal.
         rewrite !prod_sgn_app. ring. }
-    clear -Hin. revert Hin. vm_compute. intuition.
+    clear -Hin. subst fd. revert Hin. generalize (flux_of (make_honeycomb_ujk n) p). intros x Hx. vm_compute in Hx. intuition.
   Qed.
 End HC.
 
